@@ -76,6 +76,9 @@ class WildGen:
                                        # the harness cannot read routines that contain them: switched off there)
             special_names=0.0,         # python keywords / ipython names / print / serialize as member names
             qualified_param_name_deep=False,   # D49: ns::T inside template arguments, T a parameter in scope
+            enum_namesakes=0.0,        # probability that an enum takes the name of an enum of another scope
+            overloads=0.0,             # probability that a method / static method reuses an earlier name of its class
+                                       # (incl. the const / non-const pair of one signature)
             reopen_ns=0.0,             # probability that a namespace is written as two blocks (D6, repaired)
         )
         f.update(features)
@@ -84,6 +87,8 @@ class WildGen:
         self.scoped_ok = {}      # param -> may be used as T::X (its concrete types are not templated)
         self.in_class = False
         self.ns_path = ()
+        self._enum_names = []    # (scope key, name) of the enums generated so far
+        self._funcs = [[]]       # names of the free functions generated so far, per open namespace
 
     # ---- names
     def ident(self, upper=False):
@@ -255,10 +260,21 @@ class WildGen:
         # concrete types for parameters that are used as a scope
         return {p.name: (p.insts is None or all(not t.args for t in p.insts)) for p in (tparams or ())}
 
-    def enum(self):
+    def enum(self, scope=None):
+        """scope: key of the declaring scope (namespace path or class); with enum_namesakes an enum may take the
+        name of an enum of *another* scope (a::Mode, b::Mode, C::Mode are different enums)."""
         kw = self.r.choice(['enum', 'enum class', 'enum struct'])
-        return S.Enum(self.ident(True), tuple(self.ident(self.r.random() < 0.5)
-                                             for _ in range(self.r.choice([1, 2, 4, 7]))), kw)
+        name = None
+        if self.r.random() < self.f['enum_namesakes']:
+            here = {n for sc, n in self._enum_names if sc == scope}
+            cand = sorted({n for sc, n in self._enum_names if sc != scope} - here)
+            if cand:
+                name = self.r.choice(cand)
+        if name is None:
+            name = self.ident(True)
+        self._enum_names.append((scope, name))
+        return S.Enum(name, tuple(self.ident(self.r.random() < 0.5)
+                                  for _ in range(self.r.choice([1, 2, 4, 7]))), kw)
 
     def operator(self, cname):
         r = self.r
@@ -314,9 +330,21 @@ class WildGen:
             if k == 'ctor':
                 members.append(S.Ctor(name, self.args(), mt))
             elif k == 'method':
-                members.append(S.Method(self.member_name(), self.ret(), self.args(), r.random() < 0.5, mt))
+                prev = [m for m in members if m.k == 'Method']
+                if prev and r.random() < self.f['overloads']:
+                    o = r.choice(prev)
+                    if r.random() < 0.4 and not mt:
+                        # the const / non-const pair of one signature
+                        members.append(S.Method(o.name, o.ret, o.args, not o.const, o.template))
+                    else:
+                        members.append(S.Method(o.name, self.ret(), self.args(), r.random() < 0.5, mt))
+                else:
+                    members.append(S.Method(self.member_name(), self.ret(), self.args(), r.random() < 0.5, mt))
             elif k == 'static':
-                members.append(S.Static(self.member_name(r.random() < 0.5, 'static'), self.ret(), self.args(), mt))
+                prev = [m for m in members if m.k == 'Static']
+                nm = r.choice(prev).name if (prev and r.random() < self.f['overloads']) else \
+                    self.member_name(r.random() < 0.5, 'static')
+                members.append(S.Static(nm, self.ret(), self.args(), mt))
             elif k == 'prop':
                 members.append(S.Prop(self.type(), self.ident(), self.default() if r.random() < 0.2 else None))
             elif k == 'op':
@@ -331,7 +359,7 @@ class WildGen:
                 self.scope_params, self.in_class = hold
                 members.append(S.Dunder(nm, a))
             elif k == 'enum':
-                members.append(self.enum())
+                members.append(self.enum(('class', self.ns_path, name)))
             self.scope_params = class_params
             self.scoped_ok = dict(class_scoped_ok)
         self.scope_params, self.in_class, self.scoped_ok = saved
@@ -360,12 +388,16 @@ class WildGen:
             saved_ok = dict(self.scoped_ok)
             self.scope_params = [p.name for p in (tmpl or ())]
             self.scoped_ok = self._scoped_ok_of(tmpl)
-            fn = S.Func(self.member_name(r.random() < 0.3, 'static'), self.ret(), self.args(), tmpl)
+            scope_funcs = self._funcs[-1]
+            fname = r.choice(scope_funcs) if (scope_funcs and r.random() < self.f['overloads']) else \
+                self.member_name(r.random() < 0.3, 'static')
+            scope_funcs.append(fname)
+            fn = S.Func(fname, self.ret(), self.args(), tmpl)
             self.scope_params = saved
             self.scoped_ok = saved_ok
             return fn
         if k == 'enum':
-            return self.enum()
+            return self.enum(('ns', self.ns_path))
         if k == 'var':
             return S.Var(self.type(), self.ident(), self.default() if r.random() < 0.5 else None)
         if k == 'fwd':
@@ -380,7 +412,9 @@ class WildGen:
         name = self.ident()
         saved_path = self.ns_path
         self.ns_path = tuple(saved_path) + (name,)
+        self._funcs.append([])
         items = tuple(self.item(depth + 1) for _ in range(r.randint(0, self.k.items)))
+        self._funcs.pop()
         self.ns_path = saved_path
         return S.Namespace(name, items)
 
@@ -461,6 +495,8 @@ def add_typedefs(mod, g, flagged_scopes=False):
             # templates of any other namespace, declared before or after (D5, repaired: the tree used to be
             # searched while partly instantiated)
             cands = cands + [c for c in everywhere if c[0] == 'class' and c not in cands]
+        # an overloaded name cannot be the target of a typedef ("Found more than one ...": loud and legitimate)
+        cands = [c for c in cands if count_of[(c[1], c[2].name)] == 1]
         n_td = r.choice([0, 0, 1, 2]) if cands or g.f['fwd'] else 0
         for _ in range(n_td):
             if cands and r.random() < 0.8:
@@ -490,6 +526,15 @@ def add_typedefs(mod, g, flagged_scopes=False):
             elif it.k == 'Namespace':
                 collect(it.items, path + (it.name,))
     collect(mod.items, ())
+    count_of = {}
+
+    def count(items, path):
+        for it in items:
+            if it.k in ('Class', 'Func', 'Fwd'):
+                count_of[(path, it.name)] = count_of.get((path, it.name), 0) + 1
+            elif it.k == 'Namespace':
+                count(it.items, path + (it.name,))
+    count(mod.items, ())
     return S.Module(tuple(rec(mod.items, (), [])))
 
 
